@@ -16,7 +16,7 @@ CFG = {
             "wildcards mixed in) plus Normalize on hand-built unsorted unions; distinct = distinct op line; non-trivial = the parser "
             "accepted. hop: histories reset;(tick ok|err, write, recv on current/previous/closed/unknown socket, read timeouts, "
             "flood to the 1024 queue limit, read with various buffer sizes, Set*Deadline/Set*Buffer, LocalAddr, Close, hop racing "
-            "Close, reads/writes/ticks after Close) drawn from the PRNG over 12 port expressions and valid/invalid interval "
+            "Close, Close issued while hop is inside ListenUDPFunc, reads/writes/ticks after Close) drawn from the PRNG over 12 port expressions and valid/invalid interval "
             "configurations with listen failures injected; non-trivial = the operation was enabled (not idle / no connection)",
     "trusted_base": [
         "strconv.ParseUint(s,10,16), strings.Split/Contains on one-byte separators, sort.Slice (modelled; any correct sort gives "
@@ -36,7 +36,11 @@ CFG = {
     "assumptions": [
         "a Go string is modelled as the list of its bytes (byte b = Char.ofNat b)",
         "atomic steps: hop(), WriteTo, Close, each Set* method (mutex regions); one recvLoop iteration; ReadFrom = closeChan test "
-        "followed by the select",
+        "followed by the select. For hop/Close/WriteTo the atomicity is tied to the source on every run: go/ast facts "
+        "(harness/extras/verifh/c19_facts.go -> Hy.Gen.udphop{Hop,Close,WriteTo}*) state that the closed test, the "
+        "ListenUDPFunc() call, prevConn.Close() and the socket swap of hop sit in ONE connMutex.Lock region (likewise Close, "
+        "WriteTo), decided by the kernel in hop_is_one_write_locked_region / close_is_one_write_locked_region / "
+        "writeTo_is_one_locked_region; and exercised by the `closeinlisten` stimulus (Close() issued from inside ListenUDPFunc)",
         "a recvLoop blocked while pushing a timeout error into a FULL queue is not modelled (that label is disabled)",
         "the hop model is of the code with fixes/D10.patch applied (ReadFrom tests closeChan before selecting)",
         "reads that were already parked in ReadFrom's select when Close ran may still return a queued packet (they were issued "
